@@ -53,7 +53,7 @@ pub fn registry() -> Vec<Entry> {
         entry::<packet::C24>(true),
         entry::<packet::C25>(false),
         entry::<c26::C26>(false),
-        entry::<c27::C27>(false),
+        entry::<c27::C27>(true),
         entry::<c28::C28>(false),
         entry::<c29::C29>(false),
         entry::<c30::C30>(true),
@@ -71,6 +71,6 @@ pub fn registry() -> Vec<Entry> {
         entry::<c42::C42>(false),
         entry::<c43::C43>(false),
         entry::<c44::C44>(false),
-        entry::<c45::C45>(false),
+        entry::<c45::C45>(true),
     ]
 }
